@@ -172,7 +172,11 @@ def synth(rng: random.Random, layout: str = 'v20', *, compress: tuple = (), orig
     version 14: the reader raises at once), 'sprp_size' (3 stray bytes: the reader raises after it looked at visleafs),
     'ents' (last entity not terminated), 'bmodel_ref' (an entity naming a brush model that does not exist: the bmodels
     reader raises after it took the "model" key out of the brush entities of the cached ents view), 'texinfo' (a texinfo naming a texdata that does not exist), 'dprp' (detail
-    prop lump cut short), 'overlays' (lump cut in the middle of a record)."""
+    prop lump cut short), 'overlays' (lump cut in the middle of a record), 'phys_empty' / 'phys_noterm' / 'phys_cut' / 'phys_dup' /
+    'phys_model' / 'phys_kv' / 'phys_kvsyntax' (a PHYSCOLLIDE lump the physics half of the bmodels reader rejects: no
+    terminator, cut inside a header, two definitions for one model, a block for a missing model, non-ASCII / unclosed
+    keyvalue text), 'face_plane' / 'hdr_face_plane' (the last record of FACES / FACES_HDR names a plane that does not exist:
+    the face reader raises after it changed the shared orig_faces objects)."""
     import srctools.bsp as B
     magic, version, l4d2, layname = LAYOUTS[layout]
     L = getattr(B, layname)
@@ -450,6 +454,35 @@ def synth(rng: random.Random, layout: str = 'v20', *, compress: tuple = (), orig
         d['ENTITIES'] = d['ENTITIES'][:-3] + b'\x00'          # the closing brace of the last entity is gone
     if 'bmodel_ref' in bad:      # a second brush entity naming brush model 9 (there are 2): the bmodels reader raises IndexError
         d['ENTITIES'] = d['ENTITIES'][:-1] + b'{\n"classname" "func_door"\n"model" "*9"\n"targetname" "dr"\n}\n\x00'
+    # PHYSCOLLIDE blocks that the container loads but the physics half of the bmodels reader rejects (layout as modelled by
+    # C11, Fmt/BspPhys*.v: header <iiii> model, data size, keyvalue size, solid count; per solid <i> size + bytes; keyvalue
+    # text; terminator header with model -1).  The reader gets there after it parsed MODELS, nodes, faces (and, depending on
+    # the statement order, after it looked at the entities).
+    def phys_block(model: int, body: bytes, text: bytes) -> bytes:
+        return struct.pack('<iiii', model, len(body) + 4, len(text), 1) + struct.pack('<i', len(body)) + body + text
+    phys_end = struct.pack('<iiii', -1, -1, 0, 0)
+    if 'phys_empty' in bad:         # no terminator at all: struct.error on the first header
+        d['PHYSCOLLIDE'] = b''
+    if 'phys_noterm' in bad:        # a complete block, then the lump ends
+        d['PHYSCOLLIDE'] = phys_block(0, solid, kv)
+    if 'phys_cut' in bad:           # the lump ends inside the header of the second block
+        d['PHYSCOLLIDE'] = phys_block(0, solid, kv) + phys_block(1, solid[::-1], kv)[:7]
+    if 'phys_dup' in bad:           # two definitions for brush model 1: ValueError
+        d['PHYSCOLLIDE'] = phys_block(1, solid, kv) + phys_block(1, solid[::-1], kv) + phys_end
+    if 'phys_model' in bad:         # a block for brush model 5 (there are 2): IndexError
+        d['PHYSCOLLIDE'] = phys_block(0, solid, kv) + phys_block(5, solid[::-1], kv) + phys_end
+    if 'phys_kv' in bad:            # keyvalue text that is not ASCII: UnicodeDecodeError
+        d['PHYSCOLLIDE'] = phys_block(0, solid, kv) + phys_block(1, solid[::-1], kv.replace(b'default', b'd\xe9fault')) + phys_end
+    if 'phys_kvsyntax' in bad:      # keyvalue text whose block is never closed: the keyvalues parser raises
+        d['PHYSCOLLIDE'] = phys_block(1, solid, kv.replace(b'}\n', b'')) + phys_end
+    # a face record naming a plane that does not exist: the face reader raises IndexError in the middle of the array, after
+    # it set texinfo / hammer_id on the shared objects of the orig_faces view for this face and the earlier ones
+    if 'face_plane' in bad and not vit:
+        rec = L['FACE'].size
+        d['FACES'] = d['FACES'][:-rec] + struct.pack('<H', 99) + d['FACES'][-rec + 2:]
+    if 'hdr_face_plane' in bad and not vit and 'FACES_HDR' in d:
+        rec = L['FACE'].size
+        d['FACES_HDR'] = d['FACES_HDR'][:-rec] + struct.pack('<H', 99) + d['FACES_HDR'][-rec + 2:]
     if 'texinfo' in bad:
         d['TEXINFO'] = d['TEXINFO'][:-4] + struct.pack('<i', 77)
     if 'overlays' in bad:
